@@ -240,10 +240,14 @@ class Model:
 # --------------------------------------------------------------------------
 
 def load_known():
+    """known_findings.json plus (while a property is being built) known_findings.d/*.json"""
+    out = []
     p = os.path.join(VERIF, 'known_findings.json')
-    if not os.path.exists(p):
-        return []
-    return json.load(open(p)).get('findings', [])
+    if os.path.exists(p):
+        out += json.load(open(p)).get('findings', [])
+    for f in sorted(glob.glob(os.path.join(VERIF, 'known_findings.d', '*.json'))):
+        out += json.load(open(f)).get('findings', [])
+    return out
 
 
 class Ctx:
